@@ -74,6 +74,10 @@ class CallMixin:
                 return
             a = e.args[i]
             if isinstance(a, ast.Starred):
+                if isinstance(fn, V) and isinstance(fn.t, (TOpaque, TRef)):
+                    # pass-through of *args to a callable value: the arguments are not tracked
+                    yield from go(i + 1, st, acc)
+                    return
                 raise EngineError("*args at call site")
             for st1, v in self.ev(a, st):
                 yield from go(i + 1, st1, acc + [v])
@@ -84,6 +88,9 @@ class CallMixin:
                 return
             k = e.keywords[i]
             if k.arg is None:
+                if isinstance(fn, V) and isinstance(fn.t, (TOpaque, TRef)):
+                    yield from gokw(i + 1, st, acc, kw)
+                    return
                 raise EngineError("**kwargs at call site")
             if isinstance(k.value, ast.Lambda):
                 yield from gokw(i + 1, st, acc, {**kw, k.arg: k.value})
@@ -101,9 +108,15 @@ class CallMixin:
             yield from self.call_function(st, fn, args, kw, node)
         elif isinstance(fn, ClassRef):
             yield from self.construct(st, fn.name, args, kw, node)
+        elif isinstance(fn, V) and isinstance(fn.t, TRef) and self.ct.contract_for(fn.t.cls, "__call__")[1] is not None:
+            dc_, _ = self.ct.contract_for(fn.t.cls, "__call__")
+            fr = FuncRef(self.ct.classes[dc_].module, f"{dc_}.__call__", bound_self=fn, cls=fn.t.cls)
+            yield from self.call_function(st, fr, [], {}, node)
         elif isinstance(fn, V) and isinstance(fn.t, TOpaque):
             # calling an opaque callable: unspecified call
             self.note_assumed(f"call of opaque callable {ast.unparse(node.func)}")
+            if getattr(self, "opaque_raise", False):
+                self.raise_(st, "$any", msg="call of an opaque callable")
             yield st, fresh(TOpaque("unk"), "callres")
         else:
             raise EngineError(f"call of {fn}: {ast.unparse(node)}")
@@ -226,6 +239,21 @@ class CallMixin:
         if name.startswith("time."):
             yield from self.bi_time_time(st, args, kw, node)
             return
+        if name in ("type", "getattr", "hasattr", "callable", "hash", "iter", "next", "vars", "issubclass", "object",
+                    "reversed", "map", "filter", "ord", "chr", "bytes", "complex", "divmod"):
+            # builtins without a model: an unknown value (they may run user code: may raise under opaque_raise)
+            self.note_assumed(f"builtin {name}() (unknown result)")
+            if name in ("getattr", "hash", "iter", "next", "reversed", "bytes", "complex"):
+                self.opq_may_raise(st, f"builtin {name}() on a value of unknown type")
+            yield st, fresh(TOpaque("unk"), name)
+            return
+        if "." in name and not name.startswith(("math.", "$")):
+            # a library function without a model: an unknown value; it may raise if the contract says so
+            self.note_assumed(f"library call {name} (unknown result, no effect on tracked state)")
+            if getattr(self, "opaque_raise", False):
+                self.raise_(st, "$any", msg=f"library call {name}")
+            yield st, fresh(TOpaque("unk"), "lib")
+            return
         raise EngineError(f"unsupported builtin/library call {name}: {ast.unparse(node)}")
 
     def bi__logger(self, st, args, kw, node):
@@ -262,6 +290,7 @@ class CallMixin:
             yield from self.call_function(st, fr, [], {}, node)
         elif isinstance(t, TOpaque):
             self.note_assumed(f"len() of an opaque value ({t.nm}): some non-negative int")
+            self.opq_may_raise(st, "len() of a value of unknown type")
             n = fresh(INT, "len")
             yield st.assume(n.z >= 0), n
         else:
@@ -297,6 +326,10 @@ class CallMixin:
         elif isinstance(a.t, TFP):
             yield st, vals.mk_fp(z3.fpAbs(a.z))
         else:
+            if isinstance(a.t, TOpaque):
+                self.opq_may_raise(st, "abs() of a value of unknown type")
+                yield st, fresh(TOpaque("arith"), "abs")
+                return
             raise EngineError(f"abs of {a.t}")
 
     def bi_round(self, st, args, kw, node):
@@ -341,6 +374,11 @@ class CallMixin:
         elif isinstance(a.t, TFP):
             yield st, a
         else:
+            if isinstance(a.t, TOpaque):
+                self.opq_may_raise(st, "float() of a value of unknown type")
+                r_ = fresh(FLOAT, "tofloat")
+                yield self.assume_wf(st, r_), r_
+                return
             raise EngineError(f"float() of {a.t}")
 
     def bi_real(self, st, args, kw, node):
@@ -389,6 +427,10 @@ class CallMixin:
         t = a.t
         if isinstance(t, TOpt):
             return z3.And(z3.Not(opt_isnone(a)), self.isinstance_of(st, opt_val(a), names))
+        if isinstance(t, TOpaque):
+            # a value of unknown type: the test has an unknown (but fixed per value and class list) outcome
+            f_ = z3.Function("isinst_" + "_".join(str(n) for n in names), zsort(t), z3.BoolSort())
+            return f_(a.z)
         res = []
         for nm in names:
             if isinstance(t, TRef):
@@ -816,6 +858,7 @@ class CallMixin:
             h = getattr(self, "str_" + name, None)
         elif isinstance(t, TOpaque):
             self.note_assumed(f"method {name} on opaque {t.nm}")
+            self.opq_may_raise(st, f"method {name} of a value of unknown type")
             yield st, fresh(TOpaque("unk"), "mres")
             return
         if h is None:
